@@ -45,6 +45,7 @@ OPS = [
     ['s', 3], ['s', 60], ['p', 1.5], ['p', NAN],
     ['d', 0, 1], ['d', 1, 2], ['d', 0, 100], ['t', 0, 5], ['t', 0, 6],
     ['attach', 'a.bin', b'\x00\xff\x01'], ['attach', 'b.txt', b''], ['log'], ['read'],
+    ['tbad'],   # a coordinate that cannot be a key (rejected: must leave no trace in any rendering)
     ['pl'],     # publish a mutable list: first time [0.0]; later: append to the SAME object and publish it again
 ]
 
@@ -105,6 +106,11 @@ def run_history(hist):
       if op[0] == 'pl':
         shared.append(len(shared) * 1.5)
         test.measurements.p = shared
+      elif op[0] == 'tbad':
+        try:
+          test.measurements.t[[0]] = 5
+        except Exception:  # pylint: disable=broad-except
+          pass
       elif op[0] == 's':
         test.measurements.s = op[1]
       elif op[0] == 'p':
@@ -425,8 +431,10 @@ def run(tier):
     rep.add_part(name, states=n, transitions=n, traces_validated_against_impl=n, evaluations=n,
                  distinct_nontrivial=sum(r[2] for r in res), exhaustive=True,
                  samples=samples or [{'part': name, 'cases': n}])
+  from vf.harness import c10_sched  # pylint: disable=g-import-not-at-top
+  c10_sched.run_into(rep, tier)
   rep.assumptions = [
-      'histories: all sequences up to length 3 (4 in thorough) over 13 operations inside one real phase; reads of the live view are '
+      'histories: all sequences up to length 3 (4 in thorough) over 15 operations inside one real phase; reads of the live view are '
       'operations of the history (their position matters for cache coherence)',
       'the from-scratch renderer (vf/ref/render.py) reads only public attributes and never a cache',
       'station API itself (tornado) is not importable here; its data source, TestState.as_base_types(), is what is checked',
@@ -436,6 +444,9 @@ def run(tier):
 
 def replay(art):
   r = art['replay']
+  if r.get('part') == 'schedules':
+    from vf.harness import c10_sched  # pylint: disable=g-import-not-at-top
+    return c10_sched.replay(r)
   if r['part'] == 'histories':
     hist = [[bytes.fromhex(x['b']) if isinstance(x, dict) else x for x in o] for o in r['hist']]
     for o in hist:
